@@ -312,6 +312,9 @@ def compare_sequence(ast, packages, texts, late=None):
         comp.main_xml = gen.render_schema(ast)
     _LINK["n"] += 1
     comp.link_packages = _LINK["n"] % 3 == 0       # package directories that are symbolic links
+    if _LINK["n"] % 5 == 2 and not late and not comp.link_packages:
+        tops = [p_ for p_ in sorted(comp.packages) if "." not in p_ and not any(q_.startswith(p_ + ".") for q_ in comp.packages)]
+        comp.zipped = set(tops[:1])
     comp.fixed_root = _LINK["n"] % 2 == 0          # the same file names as the case before last, other contents
     use_registry = False
     if _LINK["n"] % 4 == 1:
